@@ -517,9 +517,64 @@ def r5(ctx, R):
         R.undecided("C11.R5", "parser", "entities built in loops", "fortls:0", "no constructor call in a loop passes a container that is changed in place")
 
 
+def r6(ctx, R):
+    """map_keywords: each attribute of the list is looked at on its own.  An argument is
+    recorded for every occurrence of an argument-carrying attribute, so when an attribute occurs
+    twice (statement-level DIMENSION(3) plus the entity's own array-spec, appended last) the
+    later one is what the hover shows.  A gate on the membership of what was seen before lets
+    only the first occurrence through."""
+    R.rule("C11.R6", "the argument of an attribute is recorded for every occurrence in the attribute list (the entity's own array-spec, appended last, overrides the statement-level DIMENSION): the store is not gated on what was mapped before", floor=1, confirmed=1)
+    f = ctx.m.fn_opt("map_keywords")
+    if f is None:
+        R.undecided("C11.R6", "map_keywords", "attribute mapping", ("fortls/helper_functions.py", 1), "map_keywords not found")
+        return
+    n = 0
+    for lp in (x for x in ctx.m.walk_own(f.node) if isinstance(x, ast.For)):
+        # accumulators: names bound to an empty display before the loop and changed inside it
+        accs = set()
+        for st in f.node.body:
+            if st is lp:
+                break
+            if isinstance(st, ast.Assign) and len(st.targets) == 1 and isinstance(st.targets[0], ast.Name) and isinstance(st.value, (ast.List, ast.Dict, ast.Set)) and not getattr(st.value, "elts", getattr(st.value, "keys", [])):
+                accs.add(st.targets[0].id)
+        stores = [st for st in ast.walk(lp) if isinstance(st, ast.Assign) and any(isinstance(t, ast.Subscript) and isinstance(t.value, ast.Name) and t.value.id in accs for t in st.targets)]
+        for st in stores:
+            n += 1
+            gates, other = [], []
+            child, p = st, ctx.m.parent.get(st)
+            while p is not None and p is not lp:
+                if isinstance(p, ast.If):
+                    in_body = any(child is b for b in p.body)
+                    for cmp_ in (x for x in ast.walk(p.test) if isinstance(x, ast.Compare) and len(x.ops) == 1 and isinstance(x.ops[0], (ast.In, ast.NotIn))):
+                        right = cmp_.comparators[0]
+                        if isinstance(right, ast.Name) and right.id in accs or (isinstance(right, ast.Call) and isinstance(right.func, ast.Attribute) and isinstance(right.func.value, ast.Name) and right.func.value.id in accs):
+                            # which polarity reaches the store?  (only plain and-chains / single tests are decided)
+                            conj = isinstance(p.test, ast.Compare) or (isinstance(p.test, ast.BoolOp) and isinstance(p.test.op, ast.And) and any(v is cmp_ for v in p.test.values))
+                            first_only = conj and ((isinstance(cmp_.ops[0], ast.NotIn) and in_body))
+                            if first_only:
+                                gates.append((p, cmp_))
+                            else:
+                                other.append((p, cmp_))
+                    reads_acc = [x for x in ast.walk(p.test) if isinstance(x, ast.Name) and x.id in accs]
+                    if reads_acc and not any(q_ is p for q_, _ in gates + other):
+                        other.append((p, p.test))
+                child, p = p, ctx.m.parent.get(p)
+            k = key(f, st)
+            if gates:
+                g_, c_ = gates[0]
+                R.violation("C11.R6", f.short, k, loc(f, g_), f"the argument is stored only under `{unparse(c_)}`: when an attribute occurs twice in the list (DIMENSION(3) on the statement and the entity's own `mat(3,4)`, appended last) the first argument is kept and the entity's own one is dropped - hover shows DIMENSION(3)")
+            elif other:
+                R.undecided("C11.R6", f.short, k, loc(f, other[0][0]), f"the store depends on what was mapped before (`{unparse(other[0][1])[:60]}`)")
+            else:
+                R.ok("C11.R6", f.short, k, loc(f, st), "stored for every occurrence; gated only by tests on the attribute itself")
+    if n == 0:
+        R.undecided("C11.R6", f.short, "argument store", loc(f, f.node), "no store of an attribute argument found in the mapping loop")
+
+
 def run(ctx, R):
     r1(ctx, R)
     r2(ctx, R)
     r3(ctx, R)
     r4(ctx, R)
     r5(ctx, R)
+    r6(ctx, R)
